@@ -719,7 +719,10 @@ func RunC09(col *core.Collector, tier, variant string, seed uint64, shard, nshar
 					continue
 				}
 				for pk := 0; pk < numParkSites; pk++ {
-					for ex := 0; ex < 4; ex++ {
+					for ex := 0; ex < 8; ex++ {
+						if ex >= 4 && pk != parkRefresh && pk != parkAtomicHandler {
+							continue // (these park sites come with a policy that retires replaced nodes anyway)
+						}
 						sidx++
 						if sidx%nshards != shard {
 							continue
@@ -727,7 +730,7 @@ func RunC09(col *core.Collector, tier, variant string, seed uint64, shard, nshar
 						if l == lkGetExpired && ex%2 == 0 {
 							continue // with a same-goroutine executor the Get first runs the sweep, which needs the bucket lock
 						}
-						s := straddle{Load: l, Write: w, Park: pk, Exec: ex % 2, NotFound: ex >= 2}
+						s := straddle{Load: l, Write: w, Park: pk, Exec: ex % 2, NotFound: ex%4 >= 2, Bounded: ex >= 4}
 						wd.Arm()
 						v, inc, skipped := runStraddle(s)
 						wd.Disarm()
